@@ -83,6 +83,7 @@ func (vm *VM) block(what string) {
 }
 
 func (vm *VM) chanSend(c ChanV, v Value) {
+	vm.lockEventLog("chan", nil, true)
 	if c.Obj == nil {
 		vm.block("send on nil channel")
 	}
@@ -99,6 +100,7 @@ func (vm *VM) chanSend(c ChanV, v Value) {
 }
 
 func (vm *VM) chanRecv(c ChanV, elem types.Type) (Value, bool) {
+	vm.lockEventLog("chan", nil, true)
 	if c.Obj == nil {
 		vm.block("receive on nil channel")
 	}
@@ -174,7 +176,7 @@ func (vm *VM) selectStmt(fr *Frame, x *ssa.Select) Value {
 		}
 		vm.block("select with no ready case")
 	}
-	k := rs[vm.choose(len(rs))]
+	k := rs[vm.chooseLogged(len(rs))]
 	st := x.States[k]
 	c := vm.get(fr, st.Chan).(ChanV)
 	vals := zeros()
